@@ -1219,5 +1219,52 @@ func H_SM_closewindow() {
 	vfCover("SM.closewindow.end")
 }
 
+// ---------------------------------------------------------------------------------------------
+// C15 (put-back window, sync-point hook): PutBack of a stream whose answer is still under way is
+// stopped in front of its k-th synchronisation operation while the answer arrives, or the server
+// closes the stream. Whatever GetStream hands out next is open, clean and carries no old bytes,
+// and the active-stream count equals what callers hold plus what is pooled.
+func H_C15_window() {
+	vfInfeasibleOK()
+	w := smSetup()
+	pool := newStreamPool(1)
+	pool.session.Store(w.A)
+	sm := &SessionManager{pools: []*streamPool{pool}, config: &SessionManagerConfig{Config: &Config{}}}
+	s, err := sm.GetStream()
+	vfAssert(err == nil && s != nil, "C15.get")
+	s.BufferWriter().WriteBytes(vfBytes(3))
+	vfAssert(s.Flush(false) == nil, "C15.request-flush")
+	w.deliverAB()
+	bs := w.B.streams[s.id]
+	vfAssert(bs != nil, "C15.window.setup")
+	bs.BufferWriter().WriteBytes(vfBytes(3))
+	vfAssert(bs.Flush(false) == nil, "C15.response-flush")
+	cut := vfShape("cut", 0, 24)
+	adv := vfShape("adversary", 0, 1)
+	fired := false
+	vfSyncHook(cut, func() {
+		fired = true
+		if adv == 1 {
+			bs.Close()
+		}
+		w.deliverBA()
+	})
+	sm.PutBack(s) // the caller gave up waiting for the answer
+	vfStallHookOff()
+	if !fired {
+		vfPrune()
+	}
+	w.deliverBA()
+	s2, err2 := sm.GetStream()
+	vfAssert(err2 == nil && s2 != nil, "C15.get")
+	vfAssert(s2.IsOpen(), "C15.handed-out-stream-is-open")
+	s2.pendingData.moveTo(s2.recvBuf)
+	vfAssert(s2.recvBuf.Len() == 0, "C15.handed-out-stream-carries-no-old-bytes")
+	vfAssert(!s2.inFallbackState && s2.getCallbacks() == nil, "C15.handed-out-stream-is-clean")
+	pooled := int(pool.tail - pool.head)
+	vfAssert(len(w.A.streams) == 1+pooled, "C15.active-count-is-held-plus-pooled")
+	vfCover("C15.window.end")
+}
+
 // the session model's queue memory is plain harness memory: nothing to unmap or unlink
 func vfstub_sm_qmUnmap(q *queueManager) {}
